@@ -38,7 +38,7 @@ U = {
 PROV_URI = U["P"]
 AMBIG = object()
 
-ELEMENTS = {"entity": "Entity", "agent": "Agent", "activity": "Activity"}
+ELEMENTS = {"entity": "Entity", "agent": "Agent", "activity": "Activity", "collection": "Entity"}
 # kind -> (type local name, formal attribute local names in order, kinds of the args)
 RELATIONS = {
     "generation": ("Generation", ("entity", "activity", "time")),
@@ -57,6 +57,11 @@ RELATIONS = {
     "mention": ("Mention", ("specificEntity", "generalEntity", "bundle")),
     "membership": ("Membership", ("collection", "entity")),
 }
+# convenience factories that assert an additional prov:type: factory name -> (base relation kind, type local name)
+SUBTYPE_FACTORIES = {"revision": ("derivation", "Revision"), "quotation": ("derivation", "Quotation"),
+                     "primary_source": ("derivation", "PrimarySource")}
+for _k, (_b, _t) in SUBTYPE_FACTORIES.items():
+    RELATIONS[_k] = RELATIONS[_b]
 NO_ID_FACTORY = {"specialization", "alternate", "mention", "membership"}
 TIME_ATTRS = {"time", "startTime", "endTime"}
 # number of PROV-DM-required leading arguments per relation kind
@@ -64,6 +69,8 @@ REQUIRED = {k: 1 for k in ("generation", "usage", "start", "end", "invalidation"
 REQUIRED.update({k: 2 for k in ("communication", "derivation", "attribution", "delegation", "influence",
                                 "specialization", "alternate", "membership")})
 REQUIRED["mention"] = 3
+for _k, (_b, _t) in SUBTYPE_FACTORIES.items():
+    REQUIRED[_k] = REQUIRED[_b]
 
 TIMES = {
     "t1": datetime.datetime(2012, 3, 4, 5, 6, 7),
@@ -367,6 +374,8 @@ def apply(st, op, values=None):
                 args.append(None if tk is None else TIMES[tk])
                 if tk is not None:
                     attrs.append((PROV_URI + fa, observe.vobs(TIMES[tk])))
+        if ekind == "collection":
+            attrs.append((PROV_URI + "type", ("qn", PROV_URI + "Collection")))
         mrec = [PROV_URI + ELEMENTS[ekind], uri, attrs]
         model.sc[scope].records.append(mrec)
         st.ref = model
@@ -390,6 +399,8 @@ def apply(st, op, values=None):
             else:
                 attrs.append((PROV_URI + fa, ("qn", model.use_name(scope, a))))
                 call.append(st.spell(a))
+        if rkind in SUBTYPE_FACTORIES:
+            attrs.append((PROV_URI + "type", ("qn", PROV_URI + SUBTYPE_FACTORIES[rkind][1])))
         mrec = [PROV_URI + tname, uri, attrs]
         model.sc[scope].records.append(mrec)
         st.ref = model
